@@ -7,9 +7,9 @@ import (
 	"fmt"
 	"testing"
 
-	math "github.com/IBM/mathlib"
 	"github.com/IBM/TSS/mpc/bls"
 	"github.com/IBM/TSS/mpc/ps"
+	math "github.com/IBM/mathlib"
 	"github.com/consensys/gnark-crypto/ecc/bn254"
 
 	"verif/core/sim"
